@@ -3,6 +3,7 @@ package main
 import (
 	"fmt"
 	"go/ast"
+	"go/token"
 	"go/types"
 	"os"
 	"regexp"
@@ -295,5 +296,38 @@ func init() {
 			ok := strings.HasSuffix(got["RootHash"], "#0") && got["Data"] == "txs[i]" && strings.HasSuffix(got["Proof"], "#1[i]")
 			c.Check(ok, "types.Txs.Proof(i) = {root, txs[i], proofs[i]}", w.pos(f.Pos()), "fields tie tx i to proof i", fmt.Sprintf("RootHash=%s Data=%s Proof=%s", got["RootHash"], got["Data"], got["Proof"]))
 		}
+	})
+}
+
+// ------------------------------------------------------------------ C10.R6
+// The root of the RFC 6962 style tree does not commit to the number of leaves: (index, total) of a proof only
+// steer the shape of the path. "Verifies only for the item at the stated index of a tree with the stated
+// number of leaves" therefore holds for a verifier only if it pins the proof's total (and index) to values
+// it knows independently of the proof. Every in-scope verification site must do that.
+func init() {
+	register("C10", "R6", "K1", "every Merkle proof verification pins the proof's stated total to an independently known leaf count (the root does not commit to it)", 2, func(c *Ctx) {
+		w := c.W
+		n := 0
+		for _, s := range w.allCallsTo("crypto/merkle#Proof.Verify", "crypto/merkle#Proof.ComputeRootHash") {
+			if relPkg(s.Fn) == "crypto/merkle" && strings.HasSuffix(funcKey(s.Fn), ".Verify") {
+				continue // Verify itself calling ComputeRootHash
+			}
+			n++
+			recv := w.expr(callRecv(s.Instr.(ssa.CallInstruction)))
+			key := funcKey(s.Fn) + " :: verify " + recv
+			g := Guard{Name: "the proof's total equals a leaf count known from elsewhere", Match: func(w *World, f *ssa.Function, a Atom) bool {
+				if a.Kind != "cmp" || a.Op != token.EQL {
+					return false
+				}
+				x, y := w.expr(a.X), w.expr(a.Y)
+				isTot := func(s string) bool {
+					return strings.HasSuffix(s, recv+".Total") || strings.HasSuffix(s, ".Proof.Total") && strings.Contains(s, strings.TrimSuffix(recv, ".Proof"))
+				}
+				fromProof := func(s string) bool { return strings.Contains(s, recv) }
+				return (isTot(x) && !fromProof(y)) || (isTot(y) && !fromProof(x))
+			}}
+			c.guards(s.Fn, s.Instr, key, 1, g)
+		}
+		c.Check(n >= 2, "Merkle proof verification sites found", "-", fmt.Sprintf("%d", n), fmt.Sprintf("only %d sites", n))
 	})
 }
